@@ -85,17 +85,25 @@ pub fn header_trees(lanes: &[(Entry, u8)], caps: &[u32], k: usize, depth: usize,
     let mut v = Vec::new();
     for &(entry, cfg) in lanes {
         for &cap in caps {
-            for r in header_resume_contexts() {
-                let mut ctx = start_line_for(entry).to_vec();
-                ctx.extend_from_slice(&r);
-                v.push(TreeSpec {
-                    lane: Lane::new(entry, cfg, cap),
-                    ctx,
-                    alphabet: header_alphabet(k),
-                    depth,
-                    extra,
-                    companions: comp.clone(),
-                });
+            for (vi, sl) in start_line_variants(entry).into_iter().enumerate() {
+                for (ri, r) in header_resume_contexts().into_iter().enumerate() {
+                    // the canonical start line with every resume context at full depth; the
+                    // alternative start lines (LF-only, no reason, leading empty line) with the
+                    // first two resume contexts one level shallower
+                    if vi > 0 && (ri > 1 || depth < 2) {
+                        continue;
+                    }
+                    let mut ctx = sl.to_vec();
+                    ctx.extend_from_slice(&r);
+                    v.push(TreeSpec {
+                        lane: Lane::new(entry, cfg, cap),
+                        ctx,
+                        alphabet: header_alphabet(k),
+                        depth: if vi > 0 { depth - 1 } else { depth },
+                        extra,
+                        companions: comp.clone(),
+                    });
+                }
             }
         }
     }
@@ -317,6 +325,7 @@ pub fn plan(prop: &str, tier: Tier) -> Option<Plan> {
             p.armed = O_ERRKIND;
             all_areas(&mut p, "C10", &all_hdr, &[0, 1, 2], if q { 6 } else { 8 }, if q { 4 } else { 6 }, 2, 0, &multi_req, &multi_resp);
             s2::add_template_mutations(&mut p, q, &[Backend::Native]);
+            s2::add_header_count_sweep(&mut p, q);
         }
         "C11" => {
             p.armed = O_PARTIAL;
@@ -394,7 +403,7 @@ pub fn plan(prop: &str, tier: Tier) -> Option<Plan> {
         }
         "C17" => {
             p.armed = O_STORAGE;
-            let d = if q { 6 } else { 8 };
+            let d = if q { 5 } else { 8 };
             let c = Companions::Capacities(vec![0, 1, 2, 3, 4]);
             // every entry point that stores headers, init and uninit
             let mut lanes: Vec<(Entry, u8)> = vec![(Entry::Headers, 0), (Entry::ReqParse, 0), (Entry::ReqUninit, 0), (Entry::RespParse, 0), (Entry::RespUninit, 0)];
@@ -407,6 +416,8 @@ pub fn plan(prop: &str, tier: Tier) -> Option<Plan> {
             p.phases.push(phase(&format!("C17: header trees D={d} × 9 entry points × capacities 0..4 against capacity 16"), Backend::Native, tree_tasks(header_trees(&lanes, &[16], 1, d, 0, &c))));
             p.bounds.push(format!("S1: header Σ^≤{d} × {} (entry point, option set) lanes × 4 resume contexts; each node at capacity 16 and capacities 0..=4 (trees of this depth complete at most 4 headers); sentinel / poison prefilled arrays", lanes.len()));
             s2::add_capacity_templates(&mut p, q);
+            s2::add_header_count_sweep(&mut p, q);
+            s8::add_families(&mut p, q);
         }
         "C19" => {
             p.armed = O_ALLOC;
